@@ -6,7 +6,7 @@ This file contains the main Program class for the CoCo Assembler.
 """
 # I M P O R T S ###############################################################
 
-from cocoasm.exceptions import TranslationError, ValueTypeError
+from cocoasm.exceptions import TranslationError, ValueTypeError, OperandTypeError
 from cocoasm.statement import Statement
 from cocoasm.values import AddressValue, NoneValue
 from cocoasm.virtualfiles.source_file import SourceFile
@@ -136,7 +136,7 @@ class Program(object):
         for index, statement in enumerate(self.statements):
             try:
                 statement.fix_addresses(self.statements, index)
-            except (ValueTypeError, ZeroDivisionError) as error:
+            except (ValueTypeError, ZeroDivisionError, OperandTypeError) as error:
                 raise TranslationError(str(error), statement)
 
         # Update the symbol table with the proper addresses
